@@ -46,6 +46,17 @@ def plan(tier, seed):
                 spec["segments"] = [
                     {"steps": spec["steps"], "kill_in": [point, j]},
                     {"steps": spec["steps"]}]
+    # one history per job is a one-worker run that finishes and is then
+    # extended by one or two steps (the one-worker law "rows + live = step
+    # counter" is exact there, whoever counts the steps)
+    for job in jobs:
+        spec = job["specs"][0]
+        spec["workers"] = 1
+        n = spec["steps"]
+        k = rng.choice([1, 1, 2])
+        spec["segments"] = [{"steps": n - k}, {"steps": n}]
+        if rng.random() < 0.5:
+            spec["segments"].append({"steps": n + 1})
     return jobs
 
 
